@@ -10,7 +10,8 @@ BOUNDS = {
     "quick": {"list length": "1..3 symbolic cells (duplicates and ancestor/descendant pairs allowed: positions are unconstrained)",
               "resolutions": "singles: every r in -1..29 with t in {r, r+1, r+2}; pairs/triples from {-1,0,1,2,3,9,28} with t <= min+3",
               "expansion": "<= 960 ids per input cell"},
-    "thorough": {"list length": "1..3", "resolutions": "singles: every r in -1..29, t in r..min(r+3,29); all pairs and triples from {-1,0,1,2,3,5,28,29} with max<=t<=min+3",
+    "thorough": {"list length": "1..4", "resolutions": "singles: every r in -1..29, t in r..min(r+3,29); all pairs and triples from {-1,0,1,2,3,5,28,29} with max<=t<=min+3; "
+                          "a third of the 4-lists over {-1,0,1,2,3} with t<=min+2",
                  "expansion": "<= 960 ids per input cell"},
 }
 OUTSIDE = ["lists of more than 3 cells (the function treats cells independently: one running offset)",
@@ -93,6 +94,14 @@ def jobs(tier, seed):
         triples = [x for x in combos if len(x[0]) == 3]
         rnd.shuffle(triples)
         combos = pairs + triples[:40]
+    if tier != "quick":
+        # thorough: lists of four cells around the aperture changes
+        import itertools as _it
+        for rs in _it.product([-1, 0, 1, 2, 3], repeat=4):
+            lo, hi = min(rs), max(rs)
+            for t in range(hi, min(lo + 2, 29) + 1):
+                if sum(expected_children(r, t) for r in rs) <= 600 and (sum(rs) + t) % 3 == 0:
+                    combos.append((list(rs), t))
     for rs, t in combos:
         js.append(Job("list[%s->%d]" % (",".join(map(str, rs)), t), "h_uncompact", {"rs": rs, "t": t},
                       weight=sum(expected_children(r, t) for r in rs)))
